@@ -1,0 +1,11 @@
+//go:build verif
+
+// Machine-checked contracts for package ast (read by /verif/govc; comments only).
+//
+// typeinv: well-formedness (wf) of syntax trees as the parser builds them. These are assumed on
+// every node that exists when a consumer (formatter, codec, linter, interpreter) is entered and
+// are the producer-side obligations of the parser.
+
+package ast
+
+//@ typeinv ast.BackendDeclaration self.Meta != nil && self.Name != nil
